@@ -46,6 +46,15 @@ type c06FileSpec struct {
 }
 
 func c06(r *vlib.Run) int {
+	min := c06Body(r)
+	if r.Tier == "thorough" || os.Getenv("VERIF_FORCE_RACE") != "" {
+		// secondary monitor: the same workload (reduced) against -race builds
+		r.RacePass([]string{"mapr.(*GlobalGroupSet)", "mapr.(*GroupSet)", "mapr.(*AggregateSet)", "mapr/server.(*Aggregate)", "mapr/client.(*Aggregate)", "clients.(*MaprClient)"}, func() { c06Body(r) })
+	}
+	return min
+}
+
+func c06Body(r *vlib.Run) int {
 	r.Rule("conservation: every input line has weight 1 and belongs to a file with a unique id; queries group by file id (per-file " +
 		"accounting) or by a small group column (same group merged from many servers). W1: fleets of 1-32 servers with one file each " +
 		"(simultaneous delivery, interval 1, final report): every deficit or excess is a violation. W2: 1-4 servers x 1-12 files x " +
@@ -281,7 +290,7 @@ func c06Run(r *vlib.Run, cf *c06Fleet, rng *rand.Rand, pi, run int, w2 bool, pro
 	// attribution to the recorded finding
 	if len(excess) == 0 && nFiles > 1 && len(early) > 0 && (len(deficit) > 0 || res.Hung) {
 		ok := true
-		if !byGroup {
+		if !byGroup && !res.Hung {
 			for k := range deficit {
 				// k = s<srv>f<file>
 				var s, f int
